@@ -83,7 +83,7 @@ package lexer
 //@   pure
 //@   ensures result == c.rawCursor
 
-//@ func (*PeekingLexer).Peek [C12 C10 C11 C06]
+//@ func (*PeekingLexer).Peek [C12 C10 C11 C06 C01]
 //@   frame-tags C09
 //@   requires plInv(p)
 //@   pure
@@ -96,7 +96,7 @@ package lexer
 //@   pure
 //@   ensures result != nil && result == &p.tokens[p.rawCursor]
 
-//@ func (*PeekingLexer).Next [C12 C10 C06 C11]
+//@ func (*PeekingLexer).Next [C12 C10 C06 C11 C01]
 //@   frame-tags C09
 //@   no-recursion
 //@   requires plInv(p)
@@ -107,7 +107,7 @@ package lexer
 //@   ensures !eofAt(p, old(p.nextCursor)) ==> p.rawCursor == old(p.nextCursor)+1 && p.cursor == old(p.cursor)+1
 //@   use cntSkip(p, old(p.rawCursor), old(p.nextCursor)) at entry
 
-//@ func (*PeekingLexer).advanceToNonElided [C12 C06 C11]
+//@ func (*PeekingLexer).advanceToNonElided [C12 C06 C11 C01]
 //@   frame-tags C09
 //@   no-recursion
 //@   requires streamOK(p) && 0 <= p.rawCursor && p.rawCursor <= p.nextCursor && p.nextCursor <= eofIdx(p)
@@ -119,7 +119,7 @@ package lexer
 //@   loop 1 invariant forall(k, p.rawCursor, p.nextCursor, elidedAt(p, k))
 //@   loop 1 decreases eofIdx(p) - p.nextCursor
 
-//@ func (*PeekingLexer).PeekAny [C12 C10 C06]
+//@ func (*PeekingLexer).PeekAny [C12 C10 C06 C01]
 //@   frame-tags C09
 //@   no-recursion
 //@   requires plInv(p) && match != nil
@@ -130,7 +130,7 @@ package lexer
 //@   loop 1 invariant forall(k, p.rawCursor, i, !match(p.tokens[k]))
 //@   loop 1 decreases p.nextCursor - i
 
-//@ func (*PeekingLexer).FastForward [C12 C10 C06 C11]
+//@ func (*PeekingLexer).FastForward [C12 C10 C06 C11 C01]
 //@   frame-tags C09
 //@   no-recursion
 //@   requires plInv(p)
@@ -327,17 +327,27 @@ package lexer
 //@   ensures candidate.RE != nil ==> result1 == nil && result0 == candidate.RE
 //@   ensures result1 == nil ==> foralls(s, uf("re_matches", "Bool", result0, s) == ruleMatches(candidate, l.stack[len(l.stack)-1].groups, s)) [C03]
 
+// BackrefRegex: the cache only ever receives what this function stores, and it stores a compiled, anchored
+// expression (proved at the Store site); what Load returns is assumed to be such a value (the cache invariant; its
+// coherence across keys is the bounded cache stand-in). What the expansion means (backref_matches) is a definition.
+//@ lemma backrefMeaning(re *regexp.Regexp, input string, groups []string)
+//@   axiom
+//@   ensures foralls(s, uf("re_matches", "Bool", re, s) == uf("backref_matches", "Bool", input, groups, s))
 //@ func BackrefRegex [C07 C03]
-//@   trusted
+//@   requires backrefCache != nil
 //@   ensures result1 == nil ==> result0 != nil && uf("re_anchored", "Bool", result0)
 //@   ensures result1 == nil ==> foralls(s, uf("re_matches", "Bool", result0, s) == uf("backref_matches", "Bool", input, groups, s))
+//@   use backrefMeaning(result0, input, groups) at exit
+//@   use anchors(pattern) at call regexp.Compile#1
+//@   before call (*sync.Map).Store#1: assert typeis(value, *regexp.Regexp) && value.(*regexp.Regexp) != nil && uf("re_anchored", "Bool", value.(*regexp.Regexp)) && value.(*regexp.Regexp) == re
+//@   allow-kind typeassert "the cache holds only *regexp.Regexp values: the one Store site stores one (asserted there)"
 
-//@ func (ActionPop).applyAction [C07 C03]
+//@ func (ActionPop).applyAction [C07 C03 C04]
 //@   frame-tags C09
 //@   implements Action.applyAction
 //@   ensures result == nil ==> len(lexer.stack) == len(old(lexer.stack)) - 1 && &lexer.stack[0] == &old(lexer.stack)[0]
 
-//@ func (ActionPush).applyAction [C07 C03]
+//@ func (ActionPush).applyAction [C07 C03 C04]
 //@   frame-tags C09
 //@   implements Action.applyAction
 //@   ensures result == nil ==> len(lexer.stack) == len(old(lexer.stack)) + 1 && lexer.stack[len(lexer.stack)-1].name == p.State
